@@ -104,6 +104,7 @@ class State:
         self.edges = {}        # back-edge traversal counts
         self.seq = 0
         self.escaped = set()   # alloca terms whose address was handed to unknown code
+        self.links = {}        # local base -> locals whose address was ever stored into it
         self.locals = set()    # extra bases that behave like locals (sret result slot)
         self.defined = []      # (base, lo, hi) byte ranges written on this path (monotone: kills do not remove)
         self.memver = 0        # bumped whenever memory may have changed (value numbering of pure calls)
@@ -135,6 +136,7 @@ class State:
         s.pure = dict(self.pure)
         s.killed = list(self.killed)
         s.globalver = self.globalver
+        s.links = {k: set(v) for k, v in self.links.items()}
         return s
 
     def fresh(self):
@@ -381,6 +383,12 @@ class State:
         self.store[(base, off)] = val
         self.stype[(base, off)] = ty
         self.defined.append((base, off, off + size))
+        # a pointer to a local stored into a local: remembered for good (the cell's value may later be forgotten by a
+        # kill, the fact that the pointee is reachable through this object must not be)
+        vb = ptr_key(val)[0] if isinstance(val, tuple) else None
+        if isinstance(vb, tuple) and isinstance(base, tuple) and (vb[0] == "alloca" or vb in self.locals) and \
+                (base[0] == "alloca" or base in self.locals) and vb != base:
+            self.links.setdefault(base, set()).add(vb)
 
     def version_for(self, args):
         """how often memory related to these argument terms may have changed so far"""
@@ -457,6 +465,12 @@ class State:
         changed = True
         while changed:
             changed = False
+            for b, vs in self.links.items():
+                if any(derives(b, r) for r in reach):
+                    for vb in vs:
+                        if vb not in reach:
+                            reach.add(vb)
+                            changed = True
             for (b, off), v in self.store.items():
                 if any(derives(b, r) for r in reach):
                     vb = ptr_key(v)[0] if isinstance(v, tuple) else v
@@ -611,6 +625,14 @@ class Executor:
                 continue
             if op == "call":
                 callee = ins.callee
+                if callee is None and getattr(ins, "callee_val", None) is not None:
+                    # a call through a function pointer whose value is known on this path (a routine passed as an argument
+                    # to a helper that has been inlined): resolved to the direct call
+                    cv = self.term(f, ins.callee_val, env, args)
+                    while isinstance(cv, tuple) and cv[0] == "cast":
+                        cv = cv[3]
+                    if isinstance(cv, tuple) and cv[0] == "fn" and cv[1] in self.prog.funcs:
+                        callee = cv[1]
                 if callee in self.inline and callee in self.prog.funcs:
                     g = self.prog.funcs[callee]
                     actuals = [self.term(f, o, env, args) for o in ins.operands]
@@ -621,7 +643,7 @@ class Executor:
                         st2.events.append(Event("leave", ins, f, tuple(actuals), ret, len(st2.facts), callee, "inline", None, depth))
                         yield from self.exec_from(f, b, i + 1, prev, env2, st2, args, depth)
                     return
-                self.do_call(f, ins, env, st, args, depth)
+                self.do_call(f, ins, env, st, args, depth, callee)
                 i += 1
                 continue
             if op == "br":
@@ -742,6 +764,9 @@ class Executor:
             bits = type_bits(ins.type)
             if self.arith_events and bits == 64 and op in ("add", "sub", "mul", "shl") and b is not None:
                 st.events.append(Event("arith", ins, f, (a, b), None, len(st.facts), op, "arith", None, depth))
+            if op in ("shl", "lshr", "ashr") and b is not None and not is_const(b):
+                # a shift by a run-time distance: recorded so that its range can be audited
+                st.events.append(Event("shift", ins, f, (a, b), None, len(st.facts), op, "shift", bits, depth))
             if op == "ashr" and b is not None and is_const(a) and is_const(b) and bits and not (a[1] >> (bits - 1)):
                 return ("c", a[1] >> b[1] if b[1] < 128 else 0)
             if b is not None and is_const(a) and is_const(b) and bits and op in ("add", "sub", "mul", "and", "or", "xor", "shl", "lshr"):
@@ -774,10 +799,10 @@ class Executor:
         return ("opaque", op, ins.id)
 
     # ---- calls that are not inlined ----
-    def do_call(self, f, ins, env, st, args, depth):
+    def do_call(self, f, ins, env, st, args, depth, resolved=None):
         T = lambda v: self.term(f, v, env, args)  # noqa: E731
         actuals = tuple(T(o) for o in ins.operands)
-        callee = ins.callee
+        callee = resolved or ins.callee
         # snapshot of the cells that by-address arguments point to (before the call)
         pointee = []
         for a in actuals:
